@@ -5499,6 +5499,9 @@ class State:
         ):
             raise ValueError('Non-standard showdown must show all cards.')
 
+        if self.mode == Mode.TOURNAMENT and self.all_in_status and not status:
+            raise ValueError('The player must show when all-in.')
+
         if (
                 self.mode == Mode.TOURNAMENT
                 and status
